@@ -877,7 +877,110 @@ def c14(ctx):
                            "allocation measured with runtime.MemStats.TotalAlloc around the delivery loop"])
 
 
+# ---------------------------------------------------------------- C15 / C19
+
+def enc_doc(fmt, v):
+    """Minimal encoders for string/array/object documents (driver only)."""
+    if fmt == "json":
+        return list(json.dumps(v, ensure_ascii=False, separators=(",", ":")).encode())
+    if fmt == "cborl":
+        def head(m, n):
+            return [m * 32 + n] if n < 24 else ([m * 32 + 24, n] if n < 256 else [m * 32 + 25, n >> 8, n & 255])
+        if isinstance(v, str):
+            b = v.encode()
+            return head(3, len(b)) + list(b)
+        if isinstance(v, list):
+            return head(4, len(v)) + [x for e in v for x in enc_doc(fmt, e)]
+        return head(5, len(v)) + [x for k, e in v.items() for x in enc_doc(fmt, k) + enc_doc(fmt, e)]
+    def ulen(n):
+        return [ord("U"), n] if n < 256 else [ord("I"), n >> 8, n & 255]
+    if isinstance(v, str):
+        b = v.encode()
+        return [ord("S")] + ulen(len(b)) + list(b)
+    if isinstance(v, list):
+        return [ord("[")] + [x for e in v for x in enc_doc(fmt, e)] + [ord("]")]
+    out = [ord("{")]
+    for k, e in v.items():
+        kb = k.encode()
+        out += ulen(len(kb)) + list(kb) + enc_doc(fmt, e)
+    return out + [ord("}")]
+
+
+ALIAS_STRS = ["x", "hello world", "esc\n\"q\"\\", "\u00e9\u20ac", "L" * 70, "m" * 300, "", "tab\there", "a/b"]
+
+
+def c15(ctx):
+    rnd = ctx.rng
+    race_bin = core.build_harness(ctx, race=True)
+    cases = []
+    ndocs = 60 if ctx.quick else 400
+    for n in range(ndocs):
+        S = lambda: rnd.choice(ALIAS_STRS)
+        val = {"a": S(), "b": S(), "s": [S(), S()], "m": {S() or "k": S(), "z": S()}, "i": S(), "n": {"q": S(), "r": [S()]}, "k": [S(), S()]}
+        fol = {"a": S() + "2", "b": S(), "s": [S()], "m": {"y": S()}, "i": S(), "n": {"q": S()}, "k": [S()]}
+        for fmt in ("json", "ubjson", "cborl"):
+            doc, follow = enc_doc(fmt, val), enc_doc(fmt, fol)
+            L = len(doc)
+            cutsets = [[], list(range(1, L)), sorted(rnd.sample(range(1, L), 3)), sorted(rnd.sample(range(1, L), 8)), [L // 2]]
+            cutsets += [[i] for i in rnd.sample(range(1, L), 6 if ctx.quick else 30)]
+            for j, cuts in enumerate(cutsets):
+                target = ("ifc", "struct", "map")[(n + j) % 3]
+                sub = dict(target=target, follow=follow, gc=(j == 2))
+                if (n + j) % 4 == 0:
+                    sub["keycache"] = rnd.choice([0, 1, 2, 8])
+                cases.append(case("C15", "alias", fmt, doc=doc, cuts=cuts, sub=sub, origin="alias doc %d" % n))
+            # flat string maps exercise the typed map unfolders
+            flat = {("k%d" % i) + S()[:3]: S() for i in range(4)}
+            cases.append(case("C15", "alias", fmt, doc=enc_doc(fmt, flat), cuts=sorted(rnd.sample(range(1, len(enc_doc(fmt, flat))), 4)),
+                              sub=dict(target="mapstr", follow=enc_doc(fmt, {"o": S()}), gc=False, keycache=2), origin="flat map %d" % n))
+    number(cases)
+    tf, st = core.run_harness(ctx, cases, binary=race_bin, deadline=20000)
+    failed, nv = core.tlc_validate(ctx, "TraceCodec", tf)
+    return run.decide(
+        ctx, "TraceCodec", cases, tf, failed, nv, level_note="", harness_bin=race_bin,
+        rule="seeded documents (JSON, UBJSON, CBOR) whose strings and keys cover every delivery kind (short, escaped, non-ASCII, longer "
+             "than the parser's internal 64-byte buffer, empty) x chunkings (whole, bytewise, single cuts at sampled positions, seeded "
+             "multi-cuts: the chunking decides whether a token is handed over from the caller's chunk, the parser's buffer or fresh "
+             "memory), each chunk a fresh buffer overwritten right after its Write, unfolded into interface{}, struct, and map targets, "
+             "some with the key cache, some with a forced GC before every event; then a follow-up document through the SAME parser and "
+             "unfolder; harness built with -race (which enables checkptr). TraceCodec!AliasVerdict compares the snapshot taken right "
+             "after unfolding with the target after overwriting/reuse/GC and the by-value strings with their copies. Distinct = "
+             "distinct (document, chunking, target); non-trivial = at least one cut.",
+        nontrivial=lambda c: len(c["cuts"]) >= 1,
+        assumptions=TCB + ["invalid pointer conversions are observed through Go's checkptr instrumentation (-race build) on the executed paths only",
+                           "aliasing is observed through its effect (value changes after the buffer is overwritten), not by address analysis"])
+
+
+def c19(ctx):
+    race_bin = core.build_harness(ctx, race=True)
+    # the schedule quantifier is discharged on the model: all interleavings
+    core.tlc_model_check(ctx, "SFInstances", dict(Procs={1, 2} if ctx.quick else {1, 2, 3}, Types={"T1", "T2"}, Shared=False),
+                         ["NoRace", "Ownership"], "SFInstances-owned")
+    core.tlc_expect_violation(ctx, "SFInstances", dict(Procs={1, 2}, Types={"T1", "T2"}, Shared=True), "NoRace", "SFInstances-shared")
+    cases = []
+    for j in range(12 if ctx.quick else 60):
+        cases.append(case("C19", "conc", "go", sub=dict(n=8 if j % 2 == 0 else 16, rounds=30 if ctx.quick else 60, salt=ctx.seed * 1000 + j), origin="stress round %d" % j))
+    number(cases)
+    tf, st = core.run_harness(ctx, cases, binary=race_bin, deadline=120000, workers=2)
+    failed, nv = core.tlc_validate(ctx, "TraceCodec", tf)
+    npipe = sum(c["sub"]["n"] * c["sub"]["rounds"] for c in cases)
+    return run.decide(
+        ctx, "TraceCodec", cases, tf, failed, nv, level_note="", harness_bin=race_bin,
+        rule="(model) TLC explores ALL interleavings of registry lookups/compilations/insertions of the goroutines in SFInstances: with "
+             "per-instance registries NoRace and Ownership hold in every interleaving; with a shared registry (negative control) TLC "
+             "finds a race. (code) stress rounds of 8/16 goroutines x 30-60 pipelines fold->encode->parse->unfold each on NEW instances "
+             "over shared input values and shared Go types (so first-use compilation recurs), under the race detector "
+             "(halt_on_error); every result is compared with the sequential result and the registry identity of every instance is "
+             "recorded while all instances are kept alive: equal identities = shared registry = the model's racy configuration, "
+             "whatever schedule the run took. Distinct = stress rounds; non-trivial = all.",
+        nontrivial=lambda c: True,
+        extra_cov=dict(pipelines_executed=npipe),
+        assumptions=TCB + ["data races are observed by the Go race detector on the executed schedules; the all-schedules claim rests on the ownership trace + the model"])
+
+
 PROPS = {
+    "C15": c15,
+    "C19": c19,
     "C14": c14,
     "C20": c20,
     "C13": c13,
